@@ -86,6 +86,14 @@ func (c *RuleCtx) geMTU(v ssa.Value, at ssa.Instruction, depth int) (bool, strin
 	return false, "no lower bound for " + shortValue(c.P, v)
 }
 
+func isParamLoadOrPhi(v ssa.Value) bool {
+	switch v.(type) {
+	case *ssa.Parameter, *ssa.Phi:
+		return true
+	}
+	return false
+}
+
 func init() {
 	register(&Rule{ID: "C10.R1", Props: []string{"C10"}, Engine: "E2",
 		Title:   "single writers with floor: cwnd is stored only by setCWND (which only raises its argument to minCwnd), rwnd only by setRWND, the MTU only at construction",
@@ -187,6 +195,29 @@ func init() {
 				}
 				n++
 				c.Dom("fr-entry-on-third-miss", a.Instr, CmpCond(token.EQL, IsLoadOf(mi), IsConstInt(3)), "missIndicator == 3")
+				// every third miss indication outside fast recovery is a loss signal: no other condition may suppress the cut
+				var extra []string
+				for _, f := range DomFacts(a.Instr.Block()) {
+					lf, _ := loadedField(f.Cond)
+					switch {
+					case lf != nil && (lf.Name() == "inFastRecovery" || lf.Name() == "acked"):
+					case IsCallOf(c.Fn("chunkPayloadData.abandoned"))(f.Cond):
+					case IsCallOf(c.Fn("sna32LT"))(f.Cond):
+					case isParamLoadOrPhi(f.Cond):
+					default:
+						if b, ok := f.Cond.(*ssa.BinOp); ok {
+							if l, _ := loadedField(b.X); l != nil && l.Name() == "missIndicator" {
+								continue
+							}
+						}
+						if ex, ok := f.Cond.(*ssa.Extract); ok && ex.Index == 1 {
+							continue // ok of inflightQueue.get
+						}
+						extra = append(extra, fmt.Sprintf("%s=%v", shortValue(c.P, f.Cond), f.Taken))
+					}
+				}
+				c.Check(len(extra) == 0, "fr-entry-no-extra-guard", c.Pos(a.Instr), "the cut depends only on the miss count, fast-recovery state and the chunk being outstanding",
+					"an additional condition can suppress the congestion-window cut on a gap-report loss signal: "+strings.Join(extra, ", "))
 				c.Dom("fr-entry-not-already", a.Instr, BoolCond(IsLoadOf(inFR), false), "!inFastRecovery")
 				ok1, _ := MustPass(a.Instr, func(x ssa.Instruction) bool {
 					st, ok := x.(*ssa.Store)
